@@ -665,7 +665,7 @@ def inproc(ctx):
     rng = ctx.rng
     h = harness(ctx)
     cases = []
-    plan = [("plain", ctx.n(45, 380)), ("watch0", ctx.n(45, 380)), ("any", ctx.n(60, 520))]
+    plan = [("plain", ctx.n(38, 380)), ("watch0", ctx.n(38, 380)), ("any", ctx.n(50, 520))]
     todo = fixed_cases() + [gen_case(rng, klass) for klass, n in plan for _ in range(n)]
     run_all(h, todo)
     for case in todo:
@@ -726,7 +726,7 @@ def threads(ctx):
     h = harness(ctx)
     cases = []
     mt = []
-    for it in range(ctx.n(8, 60)):
+    for it in range(ctx.n(6, 60)):
         nth = rng.choice([2, 3])
         klass = rng.choice(["watch0", "any"])
         base = gen_case(rng, klass)
@@ -875,7 +875,7 @@ def reader(ctx, cases):
     syms = D.default_syms(6) + [(WVAR_OFF, 8, "D", "wvar")]
     names = [x[3] for x in syms]
     pick = [c for c in cases if c["complete"] and hook_gaps_ok(c["evs"]) and not c.get("thread_script")
-            and any(it[0] == "E" for it in c["res"]["items"])][:ctx.n(20, 100)]
+            and any(it[0] == "E" for it in c["res"]["items"])][:ctx.n(14, 100)]
     nev = 0
     for ci, c in enumerate(pick):
         recs, exp_dump, exp_replay, depth = [], [], [], 0
